@@ -14,14 +14,14 @@
 EXTENDS Integers, Sequences, FiniteSets, TLC, Json, SequencesExt, KeyOrder
 
 CONSTANTS Alphabet,    \* byte values user keys are built from
-          MaxLen,      \* maximal user-key length
+          MinLen, MaxLen, \* user-key lengths (MinLen = MaxLen gives prefix-free universes)
           CFs,         \* column family ids
           Vers,        \* versions of inserted keys
           ProbeVers,   \* versions of probes (superset of Vers: also versions between/below)
           MaxIns,      \* inserts per case
           CheckOrder   \* TRUE: check the order/encoding lemmas over the whole universe at startup
 
-UserKeys == UNION {[1..n -> Alphabet] : n \in 0..MaxLen}
+UserKeys == UNION {[1..n -> Alphabet] : n \in MinLen..MaxLen}
 Keys     == [cf : CFs, k : UserKeys, ver : Vers]
 Probes   == [cf : CFs, k : UserKeys, ver : ProbeVers]
 
